@@ -175,11 +175,12 @@ void decode(const std::vector<uint8_t> &f, Decoded &d, bool expect_closed) {
                 s.has_head[tt] = true; s.head_chunk[tt] = i;
             } else if (tc == 2) { if (lvl) d.err("track_meta", "data chunk @%llu level %d", (unsigned long long) c.off, lvl); s.data_chunks[tt].push_back(i); }
             else if (tc == 3) { if (lvl < 1) d.err("track_meta", "index chunk @%llu level 0", (unsigned long long) c.off); s.levels[tt][lvl & 15].index_chunks.push_back(i);
-                if (i + 1 >= d.chunks.size() || d.chunks[i + 1].tag != (uint8_t) (c.tag + 1) || d.chunks[i + 1].meta != c.meta)
+                if (d.repaired_mode) { /* checked below for linked chunks only */ }
+                else if (i + 1 >= d.chunks.size() || d.chunks[i + 1].tag != (uint8_t) (c.tag + 1) || d.chunks[i + 1].meta != c.meta)
                     d.err("index_summary_pair", "index chunk @%llu (signal %d level %d) is not immediately followed by its summary", (unsigned long long) c.off, sig, lvl);
                 else if (d.chunks[i + 1].plen >= 16 && d.chunks[i + 1].ts != c.ts) d.err("index_summary_pair", "index @%llu timestamp %lld != summary timestamp %lld", (unsigned long long) c.off, (long long) c.ts, (long long) d.chunks[i + 1].ts);
             } else if (tc == 4) { s.levels[tt][lvl & 15].summary_chunks.push_back(i);
-                if (i == 0 || d.chunks[i - 1].tag != (uint8_t) (c.tag - 1) || d.chunks[i - 1].meta != c.meta) d.err("index_summary_pair", "summary chunk @%llu is not preceded by its index", (unsigned long long) c.off);
+                if (!d.repaired_mode && (i == 0 || d.chunks[i - 1].tag != (uint8_t) (c.tag - 1) || d.chunks[i - 1].meta != c.meta)) d.err("index_summary_pair", "summary chunk @%llu is not preceded by its index", (unsigned long long) c.off);
             }
         }
     }
@@ -215,6 +216,23 @@ void decode(const std::vector<uint8_t> &f, Decoded &d, bool expect_closed) {
             bool expected = s.sigtype == 0 ? (tt == 0 || tt == 2 || tt == 3) : (tt == 1 || tt == 2);
             if (expected && (!s.has_track_def[tt] || !s.has_head[tt]) && d.closed && !d.repaired_mode) d.err("track_def", "signal %d track %d: definition/head missing", s.id, tt);
             char what[64];
+            if (d.repaired_mode) {
+                // only chunks reachable from the head table count; leftovers of the interrupted writer are tolerated
+                auto from_head = [&](std::vector<size_t> &lst, uint64_t head_off) {
+                    std::vector<size_t> keep; bool on = false;
+                    for (size_t ci : lst) { if (d.chunks[ci].off == head_off) on = true; if (on) keep.push_back(ci); }
+                    lst = head_off ? keep : std::vector<size_t>();
+                };
+                from_head(s.data_chunks[tt], s.has_head[tt] ? s.head_offsets[tt][0] : 0);
+                for (int L = 1; L < 16; ++L) {
+                    from_head(s.levels[tt][L].index_chunks, s.has_head[tt] ? s.head_offsets[tt][L] : 0);
+                    // follow the index chain (file order is not enough: an unlinked index may sit in between)
+                    std::vector<size_t> &ix = s.levels[tt][L].index_chunks, linked;
+                    if (!ix.empty()) { size_t cur = ix[0]; for (size_t guard = 0; guard <= d.chunks.size(); ++guard) { linked.push_back(cur); uint64_t nx = d.chunks[cur].next; auto it2 = d.by_off.find(nx); if (!nx || it2 == d.by_off.end() || std::find(ix.begin(), ix.end(), it2->second) == ix.end() || it2->second <= cur) break; cur = it2->second; } ix = linked; }
+                    std::vector<size_t> &sm = s.levels[tt][L].summary_chunks; sm.clear();
+                    for (size_t ic : ix) if (ic + 1 < d.chunks.size() && d.chunks[ic + 1].tag == (uint8_t) (d.chunks[ic].tag + 1) && d.chunks[ic + 1].meta == d.chunks[ic].meta) sm.push_back(ic + 1);
+                }
+            }
             snprintf(what, sizeof what, "signal %d track %d data list", s.id, tt); check_list(d, s.data_chunks[tt], what);
             // head table
             if (s.has_head[tt]) {
@@ -229,6 +247,11 @@ void decode(const std::vector<uint8_t> &f, Decoded &d, bool expect_closed) {
                 DTrackLevel &lv = s.levels[tt][L];
                 snprintf(what, sizeof what, "signal %d track %d level %d index list", s.id, tt, L); check_list(d, lv.index_chunks, what);
                 snprintf(what, sizeof what, "signal %d track %d level %d summary list", s.id, tt, L); check_list(d, lv.summary_chunks, what);
+                if (d.repaired_mode) {      // linked index chunks must be followed by their summary
+                    for (size_t ic : lv.index_chunks)
+                        if (ic + 1 >= d.chunks.size() || d.chunks[ic + 1].tag != (uint8_t) (d.chunks[ic].tag + 1) || d.chunks[ic + 1].meta != d.chunks[ic].meta)
+                            d.err("index_summary_pair", "index chunk @%llu (signal %d level %d) is not immediately followed by its summary", (unsigned long long) d.chunks[ic].off, s.id, L);
+                }
                 for (size_t ic : lv.index_chunks) {
                     const Chunk &c = d.chunks[ic]; const uint8_t *p = b + c.payload_off;
                     if (!c.payload_ok || c.plen < 16) { d.err("index_payload", "index @%llu payload too short", (unsigned long long) c.off); continue; }
